@@ -1794,6 +1794,31 @@ fn c15_step(b: &Built, g: &mut Inner, st: &mut State, from: usize, to: usize) {
                 break;
             }
         }
+        // one item (or the end) per Pull. from_iter answers inside the Pull (or, for a Pull sent
+        // from inside a delivery, right after that delivery returns), so once the env step is over
+        // every Pull sent while the subscription was open has been answered. Judged for sinks that
+        // never send two Pulls from inside one handler call: from_iter remembers one pending Pull,
+        // not a count (as the JS reference does), and the statement does not say what a burst is owed.
+        if ts.uterm_ev < 0 && ts.greet_ev >= 0 {
+            let live: Vec<usize> = pulls.iter().copied().filter(|p| g.events[*p].t_in < ts.dterm_in).collect();
+            let burst = live.iter().any(|p| {
+                let par = g.events[*p].parent;
+                par >= 0 && live.iter().filter(|q| g.events[**q].parent == par).count() > 1
+            });
+            if !burst {
+                bump(st, "c15.answered");
+                let answers = data.len() + if ts.dterm_ev >= 0 { 1 } else { 0 };
+                if answers != live.len() {
+                    let d = format!(
+                        "the sink has sent {} Pulls while the subscription was open and received {} Data{}",
+                        live.len(),
+                        data.len(),
+                        if ts.dterm_ev >= 0 { " and the end" } else { " and no end" }
+                    );
+                    report(g, st, &["C15"], "pull-not-answered-with-one-item", &op, pe, -1, d);
+                }
+            }
+        }
         // no delivery begins while an earlier Data delivery to the same sink is in progress
         for i in from..to {
             let ev = &g.events[i];
